@@ -557,7 +557,13 @@ def resume_hint_rules(rep):
                 hx = expand_locals(f, hint)
                 forwarded = h0.get("k") == "var" and h0.get("name") in hint_params
                 calls = [callee_short(c_) for c_ in subexprs(hx, lambda y: isinstance(y, dict) and y.get("k") == "call")]
-                from_task = "get_last_worker_thread_num" in calls
+                from engine.kinds import derives_from
+                # also through a hint local that is assigned (not merely initialised) from the recorded worker; `x = hint(w)` on a class-type
+                # local is an operator= call
+                assigned = [c_["args"][0] for _, _, c_ in f.all_events() if c_.get("k") == "call" and c_.get("op") == "=" and c_.get("recv") is not None
+                            and h0.get("k") == "var" and P(c_["recv"]) == h0.get("name") and c_.get("args")]
+                from_task = "get_last_worker_thread_num" in calls or derives_from(f, hint, lambda t: "get_last_worker_thread_num" in t) or \
+                    any(derives_from(f, a_, lambda t: "get_last_worker_thread_num" in t) for a_ in assigned)
                 if forwarded:
                     rep.ok("C10.R8", f, "%s at %s forwards the hint it was given" % (what, loc_of(ev)))
                 elif from_task:
